@@ -295,6 +295,39 @@ def run_main_scenarios(tid0, n, seed):
     return recs
 
 
+def relative_name_scenarios(tid0):
+    """Code objects whose co_filename is a BARE RELATIVE name of a real file (runpy.run_path("plugin.py"), compile(src,
+    "tool.py")) next to code compiled from strings ("<string>", "<frozen ...>") in one cache lifetime, in both orders: the
+    real file is in scope, the synthetic names are not."""
+    core.use_repo()
+    import monkeytype.config as cfg
+    roots = sorted({os.path.realpath(p) for p in (sysconfig.get_path(n) for n in ("stdlib", "purelib", "platlib")) if p})
+    d = tlc.scratch_dir("mtverif_rel_")
+    recs, cwd = [], os.getcwd()
+    try:
+        os.makedirs(os.path.join(d, "sub"))
+        for rel in ("plugin.py", os.path.join("sub", "tool.py")):
+            with open(os.path.join(d, rel), "w") as fh:
+                fh.write("def f():\n    return 1\n")
+        os.chdir(d)
+        os.environ.pop("MONKEYTYPE_TRACE_MODULES", None)
+        names = ["plugin.py", os.path.join("sub", "tool.py"), "<string>", "<frozen importlib._bootstrap>", "<stdin>"]
+        orders = [names, list(reversed(names)), [names[2], names[0], names[3], names[1], names[4]]]
+        for order in orders:
+            cfg.default_code_filter.cache_clear()
+            for fn in order:
+                code = compile("def f():\n    return 1\n", fn, "exec")
+                v = cfg.default_code_filter(code)
+                recs.append(admit_record(tid0 + len(recs), fn, os.path.splitext(os.path.basename(fn))[0], [], v, roots))
+                recs[-1]["allowset"] = False
+                recs[-1]["case"] = {"place": "bare_relative_file_name_next_to_synthetic_names", "which": fn, "order": order.index(fn)}
+    finally:
+        os.chdir(cwd)
+        cfg.default_code_filter.cache_clear()
+        shutil.rmtree(d, ignore_errors=True)
+    return recs
+
+
 LINKED_SCRIPT = '''
 import json, os, sys, sysconfig, textwrap
 import mypy_extensions
@@ -422,7 +455,9 @@ def main(pid, tier, seed, replay=None):
                            "are reused): custom filter by file name", "cases": len(dyn)})
     lnk = symlinked_prefix_scenarios(5 * 10 ** 6)
     plan.append({"family": "the interpreter reached through a symlinked prefix: stdlib / site-packages / user file", "cases": len(lnk)})
-    allrecs = recs + sweep + runs + vend + dyn + lnk
+    reln = relative_name_scenarios(6 * 10 ** 6)
+    plan.append({"family": "bare relative file names of real files next to synthetic file names, one cache lifetime, three orders", "cases": len(reln)})
+    allrecs = recs + sweep + runs + vend + dyn + lnk + reln
     slim = [{k: v for k, v in r.items() if k not in ("case", "ncode", "mode")} for r in allrecs]
     for r in slim:   # homogeneous records per family are not required, but every field a clause reads must exist
         r.setdefault("modules", [])
